@@ -2283,6 +2283,10 @@ class FTPShell(FTPAnonymousShell):
 
     def makeDirectory(self, path):
         p = self._path(path)
+        if not self.filesystemRoot.parent().isdir():
+            # makedirs() would create the missing ancestors of the root
+            # itself, which lie outside it.
+            return errnoToFailure(errno.ENOENT, path)
         try:
             p.makedirs()
         except OSError as e:
